@@ -89,6 +89,9 @@ func main() {
 		for _, n := range canonNotes {
 			fmt.Println("canon:", n)
 		}
+		for _, n := range append(v1.derivedNotes(), v2.derivedNotes()...) {
+			fmt.Println("derived:", n)
+		}
 		dumpFuncs(v1, *dump)
 		dumpFuncs(v2, *dump)
 		return
@@ -118,6 +121,11 @@ func main() {
 		r.Configs = []string{lc.Label()}
 		for _, n := range canonNotes {
 			r.Notes = append(r.Notes, "renamed field resolved: "+n)
+		}
+		if e1 == nil && e2 == nil {
+			for _, n := range append(v1.derivedNotes(), v2.derivedNotes()...) {
+				r.Notes = append(r.Notes, "derived field expanded: "+n)
+			}
 		}
 		if kerr != nil {
 			r.Fatalf("known findings file unreadable: %v", kerr)
